@@ -106,9 +106,23 @@ Proof.
 Qed.
 
 (* ---------- a behaving transport ---------- *)
+(* what the automatic broker owns of a world *)
+Definition broker_view (w : world) : N * bytes * list (N * bytes) * N := (w_broker w, w_txbuf w, w_inq w, w_last_arrival w).
+
+Lemma broker_feed_ext : forall x w a, broker_view x = broker_view w -> w_now x = w_now w ->
+  broker_view (broker_feed x a) = broker_view (broker_feed w a).
+Proof.
+  intros x w a Hv Hn. unfold broker_view in Hv. injection Hv as Hb Ht Hi Hl.
+  unfold broker_feed. rewrite Hb, Ht. destruct (N.eqb (w_broker w) 0).
+  - unfold broker_view. now rewrite Hb, Ht, Hi, Hl.
+  - destruct (broker_split _ _ _ _) as [replies rest]. destruct replies as [|r0 rs]; unfold broker_view;
+      cbn [w_broker w_txbuf w_inq w_last_arrival w_now upd_txbuf upd_inq]; rewrite ?Hb, ?Hi, ?Hl, ?Hn; reflexivity.
+Qed.
+
 Lemma io_write_healthy : forall w bs, w_script w = [] -> bs <> [] -> lenN bs <= BIG ->
   exists w1, io_write bs w = (w1, WOk (lenN bs)) /\
-    w_sess w1 = w_sess w /\ w_script w1 = [] /\ w_live w1 = w_live w /\ w_now w1 = w_now w /\ w_wire w1 = w_wire w ++ bs.
+    w_sess w1 = w_sess w /\ w_script w1 = [] /\ w_live w1 = w_live w /\ w_now w1 = w_now w /\ w_wire w1 = w_wire w ++ bs /\
+    broker_view w1 = broker_view (broker_feed w bs).
 Proof.
   intros w bs Hs Hne Hl. unfold io_write.
   assert (H0 : lenN bs <> 0) by (destruct bs; [contradiction|rewrite lenN_cons; lia]).
@@ -118,12 +132,14 @@ Proof.
   rewrite (takeN_all bs (lenN bs)) by lia.
   eexists. split; [reflexivity|].
   match goal with |- context [broker_feed ?x ?a] => destruct (broker_feed_fields x a) as [A [B [C [D E]]]] end.
-  rewrite A, B, C, D, E. cbn [w_sess w_script w_live w_now w_wire upd_wire upd_log upd_script]. repeat split.
+  rewrite A, B, C, D, E. cbn [w_sess w_script w_live w_now w_wire upd_wire upd_log upd_script].
+  split; [reflexivity|]. split; [reflexivity|]. split; [reflexivity|]. split; [reflexivity|]. split; [reflexivity|].
+  apply broker_feed_ext; reflexivity.
 Qed.
 
 Lemma io_flush_healthy' : forall w, w_script w = [] ->
   exists w1, io_flush w = (w1, FlOk) /\ w_sess w1 = w_sess w /\ w_script w1 = [] /\ w_live w1 = w_live w /\ w_now w1 = w_now w /\
-    w_wire w1 = w_wire w.
+    w_wire w1 = w_wire w /\ broker_view w1 = broker_view w.
 Proof.
   intros w Hs. unfold io_flush. rewrite (next_ev_healthy w Hs). cbn [N.eqb]. eexists. split; [reflexivity|].
   cbn [w_sess w_script w_live w_now w_wire upd_log upd_script]. repeat split.
@@ -267,7 +283,8 @@ Theorem healthy_perform_core : forall st w, Hc w -> next_step (s_ob (w_sess w)) 
   exists w', perform_outbound_step st (w_now w) w = (w', ODone true) /\ Hc w' /\
     s_reader (w_sess w') = s_reader (w_sess w) /\ w_now w' = w_now w /\
     (step_state st = SWrite 0 -> exists len,
-       w_sess w' = fst (complete_flush (fst (set_written (w_sess w) (step_key st) (0 + len) len)) (step_key st) (w_now w))).
+       w_sess w' = fst (complete_flush (fst (set_written (w_sess w) (step_key st) (0 + len) len)) (step_key st) (w_now w))) /\
+    (forall bs len, prepare_step (w_sess w) st = PWrite (step_key st) bs 0 len -> broker_view w' = broker_view (broker_feed w bs)).
 Proof.
   intros st w [Hs [Hl [I [Hm [Hpt [HB HF]]]]]] Hn.
   assert (Hwq : WInv (w_sess (fst (perform_outbound_step st (w_now w) w)))).
@@ -281,7 +298,7 @@ Proof.
     assert (H2 : 2 <= lenN bs) by (destruct Hfr as [first Hfr]; exact (frame_len _ _ Hfr)).
     pose proof (prepared_len_small _ _ _ _ I HB Hn Hp) as Hsm.
     rewrite Hl in *. cbn [negb] in *. rewrite dropN_0 in *.
-    destruct (io_write_healthy w bs Hs ltac:(intros E; rewrite E, lenN_nil in H2; lia) Hsm) as [w1 [Ew [S1 [C1 [L1 [N1 _]]]]]].
+    destruct (io_write_healthy w bs Hs ltac:(intros E; rewrite E, lenN_nil in H2; lia) Hsm) as [w1 [Ew [S1 [C1 [L1 [N1 [_ V1]]]]]]].
     rewrite Ew in *. destruct (N.eqb_spec (lenN bs) 0) as [E0|_]; [lia|].
     rewrite S1 in *. rewrite Hlen in *.
     pose proof (set_written_found (w_sess w) st (0 + len) len Hn) as Hf1.
@@ -289,7 +306,7 @@ Proof.
     destruct (N.ltb_spec (0 + len) len) as [Bad|_]; [lia|].
     assert (Es2 : s2 = fst (set_written (w_sess w) (step_key st) (0 + len) len)) by now rewrite E2.
     unfold flush_current in *. cbn [w_live upd_sess] in *. rewrite L1, Hl in *. cbn [negb] in *.
-    destruct (io_flush_healthy' (upd_sess w1 s2) C1) as [w2 [Ef [S2 [C2 [L2 [N2 _]]]]]]. rewrite Ef in *. cbn [w_sess upd_sess] in S2.
+    destruct (io_flush_healthy' (upd_sess w1 s2) C1) as [w2 [Ef [S2 [C2 [L2 [N2 [_ V2]]]]]]]. rewrite Ef in *. cbn [w_sess upd_sess] in S2.
     rewrite S2 in *.
     pose proof (complete_flush_found s2 (step_key st) (w_now w) ltac:(rewrite Es2; apply has_key_set_written; exact Hkey)) as Hf3.
     destruct (complete_flush s2 (step_key st) (w_now w)) as [s3 f3] eqn:E3. cbn [snd] in Hf3. subst f3.
@@ -306,11 +323,13 @@ Proof.
       rewrite Es3. apply Fr_complete_flush. rewrite Es2. apply Fr_set_written_full. exact HF.
     + cbn [w_sess w_now upd_sess]. split; [rewrite Es3, complete_flush_reader, Es2, set_written_reader; reflexivity|].
       split; [rewrite N2; cbn [w_now upd_sess]; exact N1|].
-      intros _. exists len. rewrite Es3, Es2. reflexivity.
+      split; [intros _; exists len; rewrite Es3, Es2; reflexivity|].
+      intros bs' len' Hp'. injection Hp' as <- _. unfold broker_view in *. cbn [w_broker w_txbuf w_inq w_last_arrival upd_sess] in *.
+      rewrite V2. exact V1.
   - (* written, awaiting its flush *)
     rewrite (prepare_flush (w_sess w) st Hst) in *.
     unfold flush_current in *. rewrite Hl in *. cbn [negb] in *.
-    destruct (io_flush_healthy' w Hs) as [w1 [Ef [S1 [C1 [L1 [N1 _]]]]]]. rewrite Ef in *. rewrite S1 in *.
+    destruct (io_flush_healthy' w Hs) as [w1 [Ef [S1 [C1 [L1 [N1 [_ V1]]]]]]]. rewrite Ef in *. rewrite S1 in *.
     pose proof (complete_flush_found (w_sess w) (step_key st) (w_now w) Hkey) as Hf3.
     destruct (complete_flush (w_sess w) (step_key st) (w_now w)) as [s3 f3] eqn:E3. cbn [snd] in Hf3. subst f3.
     assert (Es3 : s3 = fst (complete_flush (w_sess w) (step_key st) (w_now w))) by now rewrite E3.
@@ -320,7 +339,8 @@ Proof.
       split; [reflexivity|]. split; [reflexivity|]. split; [exact Hwq|]. split; [exact M3|].
       split; [exact T3|]. split; [rewrite B3; exact HB|]. rewrite Es3. apply Fr_complete_flush. exact HF.
     + cbn [w_sess w_now upd_sess]. split; [rewrite Es3, complete_flush_reader; reflexivity|]. split; [exact N1|].
-      intros E. rewrite Hst in E. discriminate E.
+      split; [intros E; rewrite Hst in E; discriminate E|].
+      intros bs' len' Hp'. discriminate Hp'.
 Qed.
 
 Theorem healthy_perform : forall st w, Hd w -> next_step (s_ob (w_sess w)) = Some st ->
